@@ -31,7 +31,7 @@ IDENT = "ext_crate"
 CFGS = ["absent", "any", "never", "version"]
 POLICIES = ["generate", "allow", "deny"]
 RENAMES = [None, "other", "other-crate"]
-PARAMS = ["0", "1i", "1r", "2", "1x"]
+PARAMS = ["0", "1i", "1r", "2", "1x", "1c", "1s"]
 SITES = ["member", "def_same", "def_diff", "vec", "inline"]
 MALFORMED = ["no_path", "no_version", "no_crate", "bad_req", "empty_req", "path_no_sep", "path_other_crate", "path_hyphen", "ext_string", "ext_number",
              "ext_array", "params_string"]
@@ -49,6 +49,12 @@ def ext_value(req, params, mal=None):
     elif params == "1x":
         # the README's own example: the parameter is a referenced schema that itself carries the extension (same crate, same requirement)
         x["parameters"] = [{"$ref": "#/definitions/GizmoX"}]
+    elif params == "1c":
+        # the parameter names a definition that refers back to the using struct: a substituted type is opaque, so no cycle exists and
+        # the parameter must be applied as declared (no Box)
+        x["parameters"] = [{"$ref": "#/definitions/GizmoC"}]
+    elif params == "1s":
+        x["parameters"] = [{"$ref": "#/definitions/User"}]   # the using struct itself
     if mal == "no_path":
         del x["path"]
     elif mal == "no_version":
@@ -79,6 +85,7 @@ def ext_value(req, params, mal=None):
 def build_doc(site, req, params, mal, params2=None):
     thing = {"type": "object", "properties": {MARKER: {"type": "string"}}, "required": [MARKER], "x-rust-type": ext_value(req, params, mal)}
     defs = {"Gizmo": {"type": "object", "properties": {"g": {"type": "integer"}}},
+            "GizmoC": {"type": "object", "properties": {"back": {"$ref": "#/definitions/User"}, "n": {"type": "integer"}}},
             "GizmoX": {"type": "object", "properties": {"gx": {"type": "integer"}},
                        "x-rust-type": {"crate": CRATE, "version": req, "path": IDENT + "::GizmoX"}}}
     if site == "member":
@@ -166,6 +173,10 @@ def expected_path(c, which="params"):
         p += "<Gizmo,u8>"
     elif c["params"] == "1x":
         p += "<::%s::GizmoX>" % first
+    elif c["params"] == "1c":
+        p += "<GizmoC>"
+    elif c["params"] == "1s":
+        p += "<User>"
     return p
 
 
@@ -274,9 +285,9 @@ def execute(cases_, tier, seed):
     res.extra["semver_pairs_crosschecked"] = len(PAIRS)
     res.samples = [{"settings": c["settings"], "ext": c["doc"]["definitions"].get("Thing", c["doc"]["definitions"].get("Other", {})).get("x-rust-type"),
                     "site": c["site"]} for c in cases_[:: max(1, len(cases_) // 4)]][:4]
-    res.bound = ("tier=%s: %s of cfg(4) x policy(3) x %d semver pairs x rename(3) x params(5) x site(5); malformed(12) x cfg x policy x sites"
+    res.bound = ("tier=%s: %s of cfg(4) x policy(3) x %d semver pairs x rename(3) x params(7) x site(5); malformed(12) x cfg x policy x sites"
                  % (tier, "full product", len(PAIRS if tier != "quick" else QUICK_PAIRS)))
     res.assumptions = ["expected semver column hand-written from Cargo's documented semantics, cross-checked against the semver crate (disagreement = exit 2)"]
-    if len(outcomes) < 2 and len(cases_) > 10:
+    if not res.violations and (len(outcomes) < 2 and len(cases_) > 10):   # a subject that breaks everything is reported through its violations, not as vacuity
         raise MachineryError("vacuity guard: a single outcome class")
     return res
